@@ -31,7 +31,8 @@ NTT = TDict(TStr, TVal)  # names -> type objects (None = any type)
 DATA = TDict(TStr, TVal)  # names -> values
 NAMES = TSet(TStr)
 NSMAP = TDict(TStr, TVal)  # namespace maps: a name or a list of names per key (opaque)
-NAMELIST = TList(TStr)
+NAMELIST = TSet(TStr)  # an Iterable[str] argument (names): the functions only depend on its set of elements
+NAMESEQ = TList(TStr)  # a *names argument
 
 
 # ---------------------------------------------------------------------------- cyclic object graph
@@ -185,6 +186,12 @@ def wfg(g):
     ]
 
 
+def wfg_ns(g):
+    """Namespace part of the invariant: every name recorded with a namespace prefix is an element (the values of the two maps -
+    a name or a list of names - are opaque here).  Stated last in postconditions."""
+    return [("wfg:namespaced-names-are-elements", subset_of_keys(g.from_namespaced, ntt(g)))]
+
+
 TYPE_DICT = type_const("dict")
 TYPE_MAPPING = type_const("collections.abc.Mapping")
 TYPE_NDARRAY = type_const("numpy.ndarray")
@@ -318,7 +325,7 @@ class RNDifference(Contract):
 
     targets = (RN + ".get_names_difference",)
     prop = ("C15",)
-    params = {"other": TEither(NAMELIST, DATA)}
+    params = {"other": TEither(NAMESEQ, DATA)}
     returns = NAMES
     inline_ok = True  # call sites pass dicts, sets, lists and tuples: they inline this one-liner
 
@@ -326,7 +333,7 @@ class RNDifference(Contract):
         s0 = rn_names(c.old.self)
         k = kq()
         o = c.old.other
-        inside = (lambda x: o.has(x)) if hasattr(o.obj, "member") else (lambda x: in_list(o, x))
+        inside = member_fn(o)
         return [("value", z3.ForAll([k], c.result.member[k] == z3.And(s0.member[k], z3.Not(inside(k))))),
                 ("new-object", z3.BoolVal(c.result.ref != c.old.self._RequiredNames__names.ref)),
                 ("read-only", same_set(rn_names(c.new.self), s0))]
@@ -344,14 +351,14 @@ class RNInit(Contract):
     def ensures(self, c):
         k = kq()
         s1 = rn_names(c.new.self)
-        return [("names", z3.ForAll([k], s1.member[k] == in_list(c.old.names, k))),
+        return [("names", z3.ForAll([k], s1.member[k] == member_fn(c.old.names)(k))),
                 ("bound", z3.BoolVal(c.new.self._RequiredNames__grammar.ref == c.arg("grammar"))),
                 ("names-are-elements", subset_of_keys(s1, ntt(c.new.grammar)))]
 
 
 def _all_elements(names, d):
-    i = z3.Int("i!ae")
-    return z3.ForAll([i], z3.Implies(z3.And(0 <= i, i < names.n), d.member[names.elems[i]]))
+    k = kq("k!ae")
+    return z3.ForAll([k], z3.Implies(member_fn(names)(k), d.member[k]))
 
 
 # ---------------------------------------------------------------------------- Defaults
@@ -492,7 +499,7 @@ class SGCheckName(_SG):
     """KeyError exactly when one of the names is no element name; read-only."""
 
     targets = (SG + "._check_name",)
-    params = {"names": NAMELIST}
+    params = {"names": NAMESEQ}
     loops = {0: LoopSpec(anchor="names", inv=lambda c, k: _check_name_inv(c, k))}
 
     @property
@@ -657,9 +664,9 @@ class SGUpdateFromNames(_SG):
         t0, t1 = ntt(c.old.self), ntt(c.new.self)
         k = kq()
         L = c.old.names
-        return [("names", z3.ForAll([k], t1.has(k) == z3.Or(t0.has(k), in_list(L, k)))),
-                ("new-types", z3.ForAll([k], z3.Implies(in_list(L, k), t1.get(k) == TYPE_NDARRAY))),
-                ("other-types-kept", z3.ForAll([k], z3.Implies(z3.And(t0.has(k), z3.Not(in_list(L, k))), t1.get(k) == t0.get(k)))),
+        return [("names", z3.ForAll([k], t1.has(k) == z3.Or(t0.has(k), member_fn(L)(k)))),
+                ("new-types", z3.ForAll([k], z3.Implies(member_fn(L)(k), t1.get(k) == TYPE_NDARRAY))),
+                ("other-types-kept", z3.ForAll([k], z3.Implies(z3.And(t0.has(k), z3.Not(member_fn(L)(k))), t1.get(k) == t0.get(k)))),
                 ] + own_fields_kept(c.old.self, c.new.self)
 
 
@@ -719,7 +726,7 @@ class SGRestrictTo(_SG):
     def ensures(self, c):
         t0, t1 = ntt(c.old.self), ntt(c.new.self)
         k = kq()
-        return [("names", z3.ForAll([k], t1.has(k) == z3.And(t0.has(k), in_list(c.old.names, k)))),
+        return [("names", z3.ForAll([k], t1.has(k) == z3.And(t0.has(k), member_fn(c.old.names)(k)))),
                 ("types-kept", z3.ForAll([k], z3.Implies(t1.has(k), t1.get(k) == t0.get(k)))),
                 ] + own_fields_kept(c.old.self, c.new.self)
 
@@ -728,7 +735,7 @@ def _restrict_inv(c, k):
     t0, t = ntt(c.old.self), ntt(c.new.self)
     x = kq("k!ri")
     pos = c.seq.pos
-    removed = lambda y: z3.And(t0.has(y), z3.Not(in_list(c.old.names, y)), pos[y] < k)  # noqa: E731
+    removed = lambda y: z3.And(t0.has(y), z3.Not(member_fn(c.old.names)(y)), pos[y] < k)  # noqa: E731
     return [("names", z3.ForAll([x], t.has(x) == z3.And(t0.has(x), z3.Not(removed(x))))),
             ("types-kept", z3.ForAll([x], z3.Implies(t.has(x), t.get(x) == t0.get(x)))),
             ] + own_fields_kept(c.old.self, c.new.self)
@@ -744,7 +751,18 @@ class _BG(Contract):
     modifies = PARTS
 
     def requires(self, c):
-        return wfg(c.old.self) + type_facts()
+        return wfg(c.old.self) + wfg_ns(c.old.self) + type_facts()
+
+
+def ns_last(cls):
+    """Adds the namespace clause of the invariant as the *last* postcondition of a mutator."""
+    orig = cls.ensures
+
+    def ensures(self, c):
+        return orig(self, c) + wfg_ns(c.new.self)
+
+    cls.ensures = ensures
+    return cls
 
 
 def removed_from_dict(d1, d0, gone):
@@ -764,12 +782,16 @@ def added_to_set(s1, s0, added):
 
 
 @register
+@ns_last
 class BGDelitem(_BG):
     """The element disappears from the elements, the required names and the defaults; nothing else changes."""
 
     targets = (BG + ".__delitem__",)
     params = {"name": TStr}
     raises = {"KeyError": lambda c: z3.Not(ntt(c.old.self).has(c.old.name))}
+
+    def finding_regions(self, c):
+        return {"name-has-a-namespace": c.old.self.from_namespaced.has(c.old.name)}
 
     def ensures(self, c):
         g0, g1 = c.old.self, c.new.self
@@ -781,6 +803,7 @@ class BGDelitem(_BG):
 
 
 @register
+@ns_last
 class BGClear(_BG):
     targets = (BG + ".clear",)
     inline_ok = True  # called by __init__ on an object whose parts do not exist yet
@@ -795,6 +818,7 @@ class BGClear(_BG):
 
 
 @register
+@ns_last
 class BGUpdateFromTypes(_BG):
     """The given names become elements with the given types, and required; the other elements, the other required
     names and the defaults are unchanged."""
@@ -811,6 +835,7 @@ class BGUpdateFromTypes(_BG):
 
 
 @register
+@ns_last
 class BGUpdateFromNames(_BG):
     targets = (BG + ".update_from_names",)
     params = {"names": NAMELIST, "merge": TBool}
@@ -821,13 +846,14 @@ class BGUpdateFromNames(_BG):
         t0, t1 = ntt(g0), ntt(g1)
         L = c.old.names
         k = kq()
-        return wfg(g1) + [("names", z3.ForAll([k], t1.has(k) == z3.Or(t0.has(k), in_list(L, k)))),
-                          ("new-types", z3.ForAll([k], z3.Implies(in_list(L, k), t1.get(k) == TYPE_NDARRAY))),
-                          ("other-types-kept", z3.ForAll([k], z3.Implies(z3.And(t0.has(k), z3.Not(in_list(L, k))), t1.get(k) == t0.get(k)))),
-                          ("required", added_to_set(req(g1), req(g0), lambda x: in_list(L, x)))] + kept(g0, g1, "types", "required")
+        return wfg(g1) + [("names", z3.ForAll([k], t1.has(k) == z3.Or(t0.has(k), member_fn(L)(k)))),
+                          ("new-types", z3.ForAll([k], z3.Implies(member_fn(L)(k), t1.get(k) == TYPE_NDARRAY))),
+                          ("other-types-kept", z3.ForAll([k], z3.Implies(z3.And(t0.has(k), z3.Not(member_fn(L)(k))), t1.get(k) == t0.get(k)))),
+                          ("required", added_to_set(req(g1), req(g0), lambda x: member_fn(L)(x)))] + kept(g0, g1, "types", "required")
 
 
 @register
+@ns_last
 class BGUpdateFromData(_BG):
     """Every name of the data becomes a required element whose type is the type of its value."""
 
@@ -870,6 +896,7 @@ class BGHasNames(_BG):
 
 
 @register
+@ns_last
 class BGRestrictTo(_BG):
     """Only the given names remain: as elements, as required names, as defaults."""
 
@@ -878,9 +905,13 @@ class BGRestrictTo(_BG):
     raises = {"KeyError": lambda c: z3.Not(_all_elements(c.old.names, ntt(c.old.self)))}
     loops = {0: LoopSpec(anchor="self._defaults.keys() - names", modifies=("self._defaults",), inv=lambda c, k: _bg_restrict_inv(c, k))}
 
+    def finding_regions(self, c):
+        k = kq("k!reg")
+        return {"a-removed-name-has-a-namespace": z3.Exists([k], z3.And(c.old.self.from_namespaced.has(k), z3.Not(member_fn(c.old.names)(k))))}
+
     def ensures(self, c):
         g0, g1 = c.old.self, c.new.self
-        out = lambda k: z3.Not(in_list(c.old.names, k))  # noqa: E731
+        out = lambda k: z3.Not(member_fn(c.old.names)(k))  # noqa: E731
         return wfg(g1) + [("elements", removed_from_dict(ntt(g1), ntt(g0), out)),
                           ("required", removed_from_set(req(g1), req(g0), out)),
                           ("defaults", removed_from_dict(dfl(g1), dfl(g0), out))] + kept(g0, g1, "types", "required", "defaults")
@@ -889,12 +920,13 @@ class BGRestrictTo(_BG):
 def _bg_restrict_inv(c, k):
     g0, g = c.old.self, c.new.self
     pos = c.seq.pos
-    gone = lambda y: z3.And(z3.Not(in_list(c.old.names, y)), pos[y] < k)  # noqa: E731
+    gone = lambda y: z3.And(z3.Not(member_fn(c.old.names)(y)), pos[y] < k)  # noqa: E731
     return [("defaults", removed_from_dict(dfl(g), dfl(g0), gone)),
             ("still-bound", z3.BoolVal(g._defaults._Defaults__grammar.ref == g.ref))] + kept(g0, g, "defaults")
 
 
 @register
+@ns_last
 class BGRenameElement(_BG):
     """The element, its requiredness and its default value move to the new name; every other element is untouched."""
 
@@ -904,7 +936,8 @@ class BGRenameElement(_BG):
 
     def finding_regions(self, c):
         d = dfl(c.old.self)
-        return {"default-value-is-None": z3.And(d.has(c.old.current_name), d.get(c.old.current_name) == val_none)}
+        return {"default-value-is-None": z3.And(d.has(c.old.current_name), d.get(c.old.current_name) == val_none),
+                "name-has-a-namespace": z3.And(c.old.self.from_namespaced.has(c.old.current_name), c.old.current_name != c.old.new_name)}
 
     def ensures(self, c):
         g0, g1 = c.old.self, c.new.self
@@ -925,6 +958,7 @@ class BGRenameElement(_BG):
 
 
 @register
+@ns_last
 class BGDefaultsSetter(_BG):
     """The defaults are replaced by the given ones, which must all be bound to element names."""
 
@@ -983,6 +1017,7 @@ def namespaces_updated(g0, g1, other):
 
 
 @register
+@ns_last
 class BGUpdate(_BG):
     """Elements, defaults and requiredness of the other grammar are taken over, except for the excluded names;
     the other grammar is not changed."""
@@ -992,8 +1027,12 @@ class BGUpdate(_BG):
     raises = {"ValueError": lambda c: z3.And(ntt(c.old.grammar).n != 0, c.old.merge),
               "TypeError": lambda c: z3.And(ntt(c.old.grammar).n != 0, z3.Not(c.old.merge), z3.Not(all_types_ok(ntt(c.old.grammar), c.old.excluded_names)))}
 
+    def finding_regions(self, c):
+        k = kq("k!reg")
+        return {"an-excluded-name-has-a-namespace": z3.Exists([k], z3.And(c.old.grammar.from_namespaced.has(k), c.old.excluded_names.member[k]))}
+
     def requires(self, c):
-        return wfg(c.old.self) + [(f"other:{l}", f) for l, f in wfg(c.old.grammar)] + type_facts()
+        return wfg(c.old.self) + wfg_ns(c.old.self) + [(f"other:{l}", f) for l, f in wfg(c.old.grammar) + wfg_ns(c.old.grammar)] + type_facts()
 
     def ensures(self, c):
         g0, g1, o = c.old.self, c.new.self, c.old.grammar
@@ -1014,6 +1053,7 @@ class BGUpdate(_BG):
 
 
 @register
+@ns_last
 class BGAddNamespace(_BG):
     """The element is renamed to namespace:name and the two namespace maps record the pair."""
 
@@ -1055,6 +1095,7 @@ class TNone(T):
 
 
 @register
+@ns_last
 class BGInit(_BG):
     """A new grammar is empty and well-formed; an empty name is refused."""
 
@@ -1079,6 +1120,7 @@ def _nonempty(s):
 
 
 @register
+@ns_last
 class SGInit(_SG):
     """The elements are the given ones; the required names are the given ones if any (they must be elements), else all elements."""
 
@@ -1100,10 +1142,9 @@ class SGInit(_SG):
             if c.arg("required_names") is None:
                 return z3.BoolVal(False)
             e = elems(c)
-            i = z3.Int("i!br")
-            L = c.old.required_names
+            k = kq("k!br")
             known = (lambda x: e.has(x)) if e is not None else (lambda x: z3.BoolVal(False))
-            return z3.Not(z3.ForAll([i], z3.Implies(z3.And(0 <= i, i < L.n), known(L.elems[i]))))
+            return z3.Not(z3.ForAll([k], z3.Implies(member_fn(c.old.required_names)(k), known(k))))
 
         return {"ValueError": lambda c: z3.Not(_nonempty(c.old.name)),
                 "TypeError": lambda c: z3.And(_nonempty(c.old.name), bad_types(c)),
@@ -1126,7 +1167,7 @@ class SGInit(_SG):
         if c.arg("required_names") is None:
             out.append(("all-required", z3.ForAll([k], r1.member[k] == t1.has(k))))
         else:
-            out.append(("required", z3.ForAll([k], r1.member[k] == in_list(c.old.required_names, k))))
+            out.append(("required", z3.ForAll([k], r1.member[k] == member_fn(c.old.required_names)(k))))
         return out
 
 
@@ -1145,15 +1186,19 @@ class BGCopy(_BG):
     def ensures(self, c):
         g0, r = c.old.self, c.result
         ind = lambda a, b: z3.BoolVal(a.ref != b.ref)  # noqa: E731
-        return [(f"copy:{l}", f) for l, f in wfg(r)] + [
+        rn = "wfg:required-names-bound-to-the-grammar"
+        return [
             ("same-elements", same_dict(ntt(r), ntt(g0))),
             ("same-required-names", same_set(req(r), req(g0))),
             ("same-defaults", same_dict(dfl(r), dfl(g0))),
             ("same-namespaces", z3.And(same_dict(r.to_namespaced, g0.to_namespaced), same_dict(r.from_namespaced, g0.from_namespaced))),
             ("same-name", r.name == g0.name),
             ("independent:elements", ind(r._SimpleGrammar__names_to_types, g0._SimpleGrammar__names_to_types)),
-            ("independent:required-names", z3.BoolVal(r._required_names.ref != g0._required_names.ref and
-                                                      r._required_names._RequiredNames__names.ref != g0._required_names._RequiredNames__names.ref)),
             ("independent:defaults", z3.BoolVal(r._defaults.ref != g0._defaults.ref and r._defaults._Defaults__data.ref != g0._defaults._Defaults__data.ref)),
             ("independent:namespaces", z3.BoolVal(r.to_namespaced.ref != g0.to_namespaced.ref and r.from_namespaced.ref != g0.from_namespaced.ref)),
-        ] + [(f"original:{l}", f) for l, f in kept(g0, c.new.self)]
+        ] + [(f"original:{l}", f) for l, f in kept(g0, c.new.self)] + [(f"copy:{l}", f) for l, f in wfg(r) if l != rn] + [
+            # (last: these two clauses fail on the pinned tree - copy.copy(RequiredNames) is shallow - and a failed clause is assumed afterwards)
+            ("independent:required-names", z3.BoolVal(r._required_names.ref != g0._required_names.ref and
+                                                      r._required_names._RequiredNames__names.ref != g0._required_names._RequiredNames__names.ref)),
+            (f"copy:{rn}", dict(wfg(r))[rn]),
+        ]
